@@ -456,6 +456,9 @@ func c13DeepCopyCoverage(c *core.Ctx, r *c13roles, rule string) {
 					okHash = marshalsDeepCopy(call.Call.StaticCallee(), r)
 				}
 				c.Check(okHash, rule, core.FuncKey(f)+" computes hash", w.Pos, "hash = f(json.Marshal(deepCopy(decl)))", "the hash is not computed from the JSON encoding of the declaration's deep copy")
+				if okHash {
+					hashKeyInjective(c, call.Call.StaticCallee(), rule)
+				}
 			}
 		}
 	}
@@ -478,6 +481,177 @@ func marshalsDeepCopy(f *ssa.Function, r *c13roles) bool {
 		}
 	}
 	return false
+}
+
+// hashKeyInjective: equal hashes must mean equal encodings. Inside the hashing function every key used with the
+// interning table (map lookup / update), and the hash itself when it is computed rather than interned, must be the
+// json.Marshal result through injective steps only (conversions between []byte and string, tuple extraction, hex/base64
+// text encodings, cryptographic digests). A non-cryptographic digest (hash/*), a length, or a truncating slice makes
+// two different declarations share a hash, and therefore cached values (seed C02-7).
+func hashKeyInjective(c *core.Ctx, f *ssa.Function, rule string) {
+	var marshal *ssa.Call
+	for _, ci := range core.Calls(f) {
+		if core.IsCallTo(ci, "encoding/json", "Marshal") {
+			if cl, ok := ci.(*ssa.Call); ok {
+				marshal = cl
+			}
+		}
+	}
+	if marshal == nil {
+		return
+	}
+	// verdict of a backward walk from v to the marshal result: "" = injective, else the first lossy/unknown step
+	var walk func(v ssa.Value, seen map[ssa.Value]bool) (reached bool, lossy string, unknown string)
+	walk = func(v ssa.Value, seen map[ssa.Value]bool) (bool, string, string) {
+		if seen[v] {
+			return false, "", ""
+		}
+		seen[v] = true
+		switch x := v.(type) {
+		case *ssa.Extract:
+			if x.Tuple == ssa.Value(marshal) {
+				return true, "", ""
+			}
+			return walk(x.Tuple, seen)
+		case *ssa.Convert:
+			return walk(x.X, seen)
+		case *ssa.ChangeType:
+			return walk(x.X, seen)
+		case *ssa.MakeInterface:
+			return walk(x.X, seen)
+		case *ssa.Slice:
+			r, l, u := walk(x.X, seen)
+			if r && (x.Low != nil || x.High != nil) && l == "" {
+				l = "a truncating slice expression"
+			}
+			return r, l, u
+		case *ssa.Phi:
+			reached, lossy, unknown := false, "", ""
+			for _, e := range x.Edges {
+				r, l, u := walk(e, seen)
+				reached = reached || r
+				if lossy == "" {
+					lossy = l
+				}
+				if unknown == "" {
+					unknown = u
+				}
+			}
+			return reached, lossy, unknown
+		case *ssa.UnOp:
+			if x.Op == token.MUL {
+				if a, ok := x.X.(*ssa.Alloc); ok {
+					reached, lossy, unknown := false, "", ""
+					for _, r := range core.Referrers(a) {
+						if st, ok := r.(*ssa.Store); ok && st.Addr == a {
+							rr, l, u := walk(st.Val, seen)
+							reached = reached || rr
+							if lossy == "" {
+								lossy = l
+							}
+							if unknown == "" {
+								unknown = u
+							}
+						}
+					}
+					return reached, lossy, unknown
+				}
+			}
+			return false, "", ""
+		case *ssa.Call:
+			reached, lossy, unknown := false, "", ""
+			args := x.Call.Args
+			if x.Call.IsInvoke() {
+				args = append([]ssa.Value{x.Call.Value}, args...)
+			}
+			for _, a := range args {
+				r, l, u := walk(a, seen)
+				reached = reached || r
+				if lossy == "" {
+					lossy = l
+				}
+				if unknown == "" {
+					unknown = u
+				}
+			}
+			// receivers that were fed the encoding earlier (h.Write(b); h.Sum32())
+			if !reached && len(args) > 0 {
+				for _, r := range core.Referrers(args[0]) {
+					if ci, ok := r.(ssa.CallInstruction); ok && ci != ssa.CallInstruction(x) {
+						for _, a := range ci.Common().Args {
+							if rr, _, _ := walk(a, map[ssa.Value]bool{}); rr {
+								reached = true
+							}
+						}
+					}
+				}
+			}
+			if !reached {
+				return false, "", ""
+			}
+			name := x.Call.String()
+			pkg := ""
+			if o := core.CalleeObj(x); o != nil && o.Pkg() != nil {
+				pkg = o.Pkg().Path()
+				name = pkg + "." + core.FuncName(o)
+			} else if b, ok := x.Call.Value.(*ssa.Builtin); ok {
+				pkg = "builtin"
+				name = b.Name()
+			}
+			switch {
+			case strings.HasPrefix(pkg, "hash/") || pkg == "hash" || name == "len" || name == "cap":
+				if lossy == "" {
+					lossy = name
+				}
+			case strings.HasPrefix(pkg, "crypto/") || pkg == "encoding/hex" || pkg == "encoding/base64" || pkg == "encoding/base32":
+			case pkg == "strconv" || pkg == "fmt":
+				// textual rendering of whatever went in: as injective as its argument
+			default:
+				if unknown == "" {
+					unknown = name
+				}
+			}
+			return reached, lossy, unknown
+		}
+		return false, "", ""
+	}
+	judge := func(what string, v ssa.Value, pos token.Pos) {
+		reached, lossy, unknown := walk(v, map[ssa.Value]bool{})
+		key := core.FuncKey(f) + " " + what
+		switch {
+		case !reached:
+			c.Bad(rule, key, pos, "does not derive from the JSON encoding of the declaration: equal keys no longer mean equal declarations")
+		case lossy != "":
+			c.Bad(rule, key, pos, "derives from the JSON encoding through "+lossy+", which is not injective: two different declarations can share a hash and are then served each other's cached values")
+		case unknown != "":
+			c.Unknown(rule, key, pos, "derives from the JSON encoding through "+unknown+", which is not in the rule's table of injective steps (conversions, hex/base64, cryptographic digests)")
+		default:
+			c.OK(rule, key, pos, "the JSON encoding itself (through conversions only)")
+		}
+	}
+	n := 0
+	for _, b := range f.Blocks {
+		for _, in := range b.Instrs {
+			switch x := in.(type) {
+			case *ssa.Lookup:
+				if _, isMap := x.X.Type().Underlying().(*types.Map); isMap {
+					judge("interning lookup key", x.Index, core.InstrPos(in))
+					n++
+				}
+			case *ssa.MapUpdate:
+				judge("interning store key", x.Key, core.InstrPos(in))
+				n++
+			}
+		}
+	}
+	if n == 0 {
+		// no interning table: the returned hash itself must be injective in the encoding
+		for _, rt := range c19Returns(f) {
+			if len(rt.Results) == 1 {
+				judge("returned hash", rt.Results[0], core.InstrPos(rt))
+			}
+		}
+	}
 }
 
 // evalPath: repository functions statically reachable from ParseNode (package transform), incl. closures.
